@@ -122,6 +122,12 @@ def run_ops(rep):
         g10 = grad(h, [1, 0])(a, b, c)
         out.append(("argnum=[1,0]", g10[1] == 2 * a * b + 1 and g10[0] == a * a + 3 * b * b * c, "list argnum, given order"))
         out.append(("grad_named", grad_named(lambda p, q: p * q * q, "q")(a, b) == 2 * a * b, "argument by name"))
+        def _posonly(scale, /, p, q):
+            return scale * p * q * q
+        out.append(("grad_named positional-only before", grad_named(_posonly, "q")(c, a, b) == 2 * c * a * b, "a positional-only parameter before the named one still counts as a position"))
+        def _kwonly(p, q, *rest, s=1):
+            return p * q * q * s + sum(rest, 0 * p)
+        out.append(("grad_named with *args and keyword-only", grad_named(_kwonly, "q")(a, b, s=c) == 2 * a * b * c, "name resolved among the positional parameters"))
         gv, aux = grad_and_aux(lambda p: (p * p * p, p * 2 + b))(a)
         out.append(("grad_and_aux", gv == 3 * a * a and aux == a * 2 + b, "aux returned untouched"))
         xv, nv = S.symarray("x", (2,), 3)
@@ -226,6 +232,46 @@ def run_nest(rep):
             out.append((f"depth3|{''.join(ms)}|{bn}", r == exp, f"got {r}, exact {exp}"))
         except Exception as e:
             out.append((f"depth3|{''.join(ms)}|{bn}", False, f"raised {type(e).__name__}: {str(e)[:100]}"))
+    # an inner differentiation whose function IGNORES its own variable but depends on the outer one: the value it hands back is still a traced
+    # quantity of the outer level (value_and_grad / make_vjp / make_jvp primal results), and its derivative is an exact zero of the right space
+    try:
+        from autograd import make_jvp as mjvp, make_vjp as mvjp, value_and_grad
+        import autograd.builtins as B_
+        for m1 in "RF":
+            progs = {
+                "value_and_grad value": lambda x: value_and_grad(lambda y: x * x * 3)(y0)[0] * x,
+                "value_and_grad grad": lambda x: value_and_grad(lambda y: x * x * 3)(y0)[1] + x * x,
+                "make_vjp primal": lambda x: mvjp(lambda y: x * x * x)(y0)[1],
+                "make_jvp primal": lambda x: mjvp(lambda y: x * x * 5)(y0)(S.Sym(S.K(1)))[0],
+                "inner depends on both, value used": lambda x: value_and_grad(lambda y: x * x * y)(y0)[0] + value_and_grad(lambda y: x * y * y)(y0)[1],
+                # containers built at two different levels and concatenated (SequenceBox.__add__ / __radd__)
+                "tuple(inner) + tuple(outer)": lambda x: ops["R"](lambda y: (lambda q: q[0] * q[2] + q[1] * q[3])(B_.tuple((y, y * y)) + B_.tuple((x * y, x))))(y0),
+                "tuple(outer) + tuple(inner)": lambda x: ops["R"](lambda y: (lambda q: q[0] * q[2] + q[1] * q[3] * y)(B_.tuple((x * x, x)) + B_.tuple((y, y * y))))(y0),
+                "list(inner) + list(outer) fwd inner": lambda x: ops["F"](lambda y: (lambda q: q[0] * q[1] * q[2])(B_.list([y * y]) + B_.list([x, x * y])))(y0),
+            }
+            exps = {
+                "value_and_grad value": (x0 * x0 * 3 * x0),
+                "value_and_grad grad": (x0 * x0),
+                "make_vjp primal": (x0 * x0 * x0),
+                "make_jvp primal": (x0 * x0 * 5),
+                "inner depends on both, value used": (x0 * x0 * y0 + 2 * x0 * y0),
+                "tuple(inner) + tuple(outer)": ((y0 * (x0 * y0) + y0 * y0 * x0).diff("x1")),
+                "tuple(outer) + tuple(inner)": ((x0 * x0 * y0 + x0 * y0 * y0 * y0).diff("x1")),
+                "list(inner) + list(outer) fwd inner": ((y0 * y0 * x0 * x0 * y0).diff("x1")),
+            }
+            for lab, prog in progs.items():
+                try:
+                    with warnings.catch_warnings():
+                        warnings.simplefilter("ignore")
+                        r = ops[m1](prog)(x0)
+                    exp = exps[lab].diff("x0")
+                    out.append((f"levels|{m1}|{lab}", S.eqsym(S.entries(r)[0], exp), f"got {r!r}, exact {exp!r}"))
+                except NotImplementedError as e:     # no forward rule for a container primitive: a loud failure is allowed
+                    rep.note(f"P-nest levels|{m1}|{lab}: {str(e)[:80]}") if len(rep.notes) < 40 else None
+                except Exception as e:
+                    out.append((f"levels|{m1}|{lab}", False, f"raised {type(e).__name__}: {str(e)[:100]}"))
+    except Exception as e:
+        out.append(("levels", False, f"raised {type(e).__name__}: {str(e)[:100]}"))
     out += _fixed_point_cases(S)
     for lab, ok, d in out:
         rep.bounded_case(("P-nest", lab), sample=dict(case=lab, clause="P-nest") if ok and len(rep.bounded_samples) < 3 else None)
@@ -323,6 +369,10 @@ def run_zero(rep):
             ("nan_to_num at non-finite entries, infinite cotangent", lambda: grad(lambda v: anp.sum(anp.sqrt(anp.nan_to_num(v))))(onp.array([onp.nan, 4.0, onp.inf])), onp.array([0.0, 0.25, 0.0])),
             ("where masks an infinite slope", lambda: grad(lambda v: anp.sum(anp.where(v > 0, anp.sqrt(anp.where(v > 0, v, 1.0)), 0.0)))(onp.array([0.0, 4.0, -1.0])), onp.array([0.0, 0.25, 0.0])),
             ("x == x NaN mask", lambda: grad(lambda v: anp.sum(anp.where(v == v, v * 2.0, 0.0)))(onp.array([onp.nan, 1.0, 2.0])), onp.array([0.0, 2.0, 2.0])),
+            ("x*round(x, 1)", lambda: grad(lambda v: anp.sum(v * anp.round(v, 1)))(onp.array([0.73, -1.31, 2.44])), onp.array([0.7, -1.3, 2.4])),
+            ("x*around(x, decimals=2)", lambda: grad(lambda v: anp.sum(v * anp.around(v, decimals=2)))(onp.array([0.733, -1.318, 2.444])), onp.array([0.73, -1.32, 2.44])),
+            ("x*x.round(1) method", lambda: grad(lambda v: anp.sum(v * v.round(1)))(onp.array([0.73, -1.31, 2.44])), onp.array([0.7, -1.3, 2.4])),
+            ("round(x, 1) value is plain", lambda: make_vjp(lambda v: anp.round(v, 1) * 1.0 + v)(onp.array([0.73]))[1], onp.array([0.7 + 0.73])),
             ("maximum with -inf", lambda: grad(lambda v: anp.sum(anp.maximum(v, -onp.inf) * 3.0))(onp.array([1.0, -2.0])), onp.array([3.0, 3.0])),
         ]
         for lab, fn, exp in tests:
